@@ -2,7 +2,7 @@
 
 The committed state is always read through a separate plain sqlite3 connection (never through Pony).
 """
-import os, sys, sqlite3, warnings, itertools
+import os, sys, gc, sqlite3, warnings, itertools
 
 from vlib import c18_model as M
 
@@ -41,10 +41,12 @@ def env():
     class D(Exception): pass
     class E(D, A): pass
     class K(BaseException): pass
+    class PredicateError(Exception):
+        """what a badly written allowed_exceptions predicate raises (think AttributeError on e.status)"""
     class HR2(bottle.HTTPResponse): pass
     class HE2(bottle.HTTPError): pass
     cls = {'A': A, 'B': B, 'C': C, 'D': D, 'E': E, 'K': K, 'Exception': Exception, 'BaseException': BaseException,
-           'TypeError': TypeError, 'GeneratorExit': GeneratorExit,
+           'TypeError': TypeError, 'GeneratorExit': GeneratorExit, 'RuntimeError': RuntimeError, 'PE': PredicateError,
            'OrmError': core.OrmError, 'TE': core.TransactionError, 'TIE': core.TransactionIntegrityError,
            'HR': bottle.HTTPResponse, 'HE': bottle.HTTPError, 'HR2': HR2, 'HE2': HE2}
     # the model's class table must agree with the real classes (Python's issubclass is the trusted base)
@@ -95,6 +97,8 @@ class Obs(object):
         self.closed_ok = None
         self.after_session = None
         self.followup_exc = None
+        self.unraisable = []
+        self.finished = False       # the consumer is done with the session under test
 
 
 def _session_kwargs(e, opts):
@@ -115,8 +119,17 @@ def _session_kwargs(e, opts):
         if spec['kind'] == 'list':
             kw[name] = list(classes)
         else:
-            kw[name] = (lambda classes: lambda exc: isinstance(exc, classes))(classes)
+            raises_for = tuple(cls[c] for c in (spec.get('raises_for') or [])) if key == 'allowed' else ()
+            kw[name] = _predicate(classes, raises_for, cls['PE'])
     return kw
+
+
+def _predicate(classes, raises_for, error):
+    def predicate(exc):
+        if isinstance(exc, raises_for):
+            raise error('predicate cannot classify %s' % type(exc).__name__)
+        return isinstance(exc, classes)
+    return predicate
 
 
 def execute(case, workdir):
@@ -148,31 +161,61 @@ def execute(case, workdir):
             obs.instances.append(exc)
             return exc
 
-        def interp(block, depth):
-            for step in block:
-                op = step[0]
-                if op == 'set':
-                    obj = Item.get(id=step[1])
-                    if obj is None:
-                        Item(id=step[1], v=step[2])
+        def do_step(step, depth):
+            """every step except 'yield' (plain function code)"""
+            op = step[0]
+            if op == 'set':
+                obj = Item.get(id=step[1])
+                if obj is None:
+                    Item(id=step[1], v=step[2])
+                else:
+                    obj.v = step[2]
+            elif op == 'del':
+                obj = Item.get(id=step[1])
+                if obj is not None:
+                    obj.delete()
+            elif op == 'flush':
+                orm.flush()
+            elif op == 'commit':
+                orm.commit()
+                probe('after_commit')
+            elif op == 'rollback':
+                orm.rollback()
+            elif op == 'dup':
+                Item(id=M.FIXED_ROW[0], v=1)
+            elif op == 'raise':
+                raise make(step[1])
+            elif op == 'nest':
+                spec, inner, catch = step[1], step[2], tuple(cls[c] for c in step[3])
+                kw = _session_kwargs(e, spec['opts'])
+
+                def inner_body(inner=inner, depth=depth):
+                    run_sync(inner, depth + 1)
+                try:
+                    if spec['form'] == 'decorator':
+                        session = orm.db_session(**kw) if kw else orm.db_session
+                        session(inner_body)()
                     else:
-                        obj.v = step[2]
-                elif op == 'del':
-                    obj = Item.get(id=step[1])
-                    if obj is not None:
-                        obj.delete()
-                elif op == 'flush':
-                    orm.flush()
-                elif op == 'commit':
-                    orm.commit()
-                    probe('after_commit')
-                elif op == 'rollback':
-                    orm.rollback()
-                elif op == 'dup':
-                    Item(id=M.FIXED_ROW[0], v=1)
-                elif op == 'raise':
-                    raise make(step[1])
-                elif op == 'yield':
+                        with (orm.db_session(**kw) if kw else orm.db_session):
+                            inner_body()
+                except catch:
+                    pass
+                probe('after_nest')
+            else:
+                raise HarnessError('unknown step %r' % (op,))
+
+        def run_sync(block, depth):
+            for step in block:
+                if step[0] == 'yield':
+                    raise HarnessError('yield in a plain function body')
+                do_step(step, depth)
+
+        # The generator / coroutine bodies are written out directly (no `yield from` / single outer `await`
+        # delegation: PEP 380 delegation would close() the inner generator and re-raise GeneratorExit in the outer
+        # one, so a body that intercepts GeneratorExit could never be expressed).
+        def gen_body():
+            for step in start_attempt():
+                if step[0] == 'yield':
                     probe('yield')
                     catch = tuple(cls[c] for c in step[1])
                     obs.yields_reached += 1
@@ -180,28 +223,25 @@ def execute(case, workdir):
                         yield obs.yields_reached
                     except catch:
                         pass
-                elif op == 'nest':
-                    spec, inner, catch = step[1], step[2], tuple(cls[c] for c in step[3])
-                    kw = _session_kwargs(e, spec['opts'])
+                    if obs.finished or core.local.db_session is None:
+                        return      # being finalised after its session is over (garbage collection): nothing to do
+                else:
+                    do_step(step, 1)
 
-                    def inner_body(inner=inner, depth=depth):
-                        run_sync(inner, depth + 1)
+        async def coro_body():
+            for step in start_attempt():
+                if step[0] == 'yield':
+                    probe('yield')
+                    catch = tuple(cls[c] for c in step[1])
+                    obs.yields_reached += 1
                     try:
-                        if spec['form'] == 'decorator':
-                            session = orm.db_session(**kw) if kw else orm.db_session
-                            session(inner_body)()
-                        else:
-                            with (orm.db_session(**kw) if kw else orm.db_session):
-                                inner_body()
+                        await _Suspend(obs.yields_reached)
                     except catch:
                         pass
-                    probe('after_nest')
+                    if obs.finished or core.local.db_session is None:
+                        return
                 else:
-                    raise HarnessError('unknown step %r' % (op,))
-
-        def run_sync(block, depth):
-            for tok in interp(block, depth):
-                raise HarnessError('yield in a plain function body')
+                    do_step(step, 1)
 
         attempts = case['attempts']
 
@@ -240,7 +280,7 @@ def execute(case, workdir):
                     if isinstance(response, e['bottle'].HTTPResponse):
                         obs.exc = response           # left the session as an exception, Bottle made it the response
                 elif form == 'generator':
-                    _drive_generator(e, case, opts, obs, interp, start_attempt, make, live)
+                    _drive_generator(e, case, opts, obs, coro_body if case.get('async') else gen_body, make, live)
                 else:
                     raise HarnessError('unknown form %r' % (form,))
             except HarnessError:
@@ -249,16 +289,25 @@ def execute(case, workdir):
                 if isinstance(exc, (KeyboardInterrupt, SystemExit, MemoryError)):
                     raise
                 obs.exc = exc
+        obs.finished = True
         for g in live:
             try:
                 g.close()
             except BaseException:
                 pass
+        del live[:]
+        if case['form'] == 'generator':
+            gc.collect()      # finalise abandoned body generators now, not in the middle of a later session
         obs.after_session = committed_rows()
-        # "nothing is committed" must stay true: a following, empty db_session must not make anything durable either
+        # "nothing is committed" must stay true: a following db_session must make durable exactly its own writes (R12)
         try:
             with orm.db_session:
-                pass
+                for step in (case.get('after') or []):
+                    obj = Item.get(id=step[1])
+                    if obj is None:
+                        Item(id=step[1], v=step[2])
+                    else:
+                        obj.v = step[2]
         except Exception as exc:
             obs.followup_exc = exc
         obs.leak = _reset_local(core)
@@ -281,24 +330,19 @@ def execute(case, workdir):
                 os.remove(path + suffix)
 
 
-class _Awaitable(object):
-    def __init__(self, gen):
-        self.gen = gen
+class _Suspend(object):
+    """awaitable that suspends the coroutine once, handing `token` to whoever drives it"""
+    def __init__(self, token):
+        self.token = token
 
     def __await__(self):
-        return (yield from self.gen)
+        return (yield self.token)
 
 
-def _drive_generator(e, case, opts, obs, interp, start_attempt, make, live):
+def _drive_generator(e, case, opts, obs, body, make, live):
     orm, core = e['orm'], e['core']
     kw = _session_kwargs(e, opts)
     session = orm.db_session(**kw) if kw else orm.db_session
-    if case.get('async'):
-        async def body():
-            await _Awaitable(interp(start_attempt(), 1))
-    else:
-        def body():
-            yield from interp(start_attempt(), 1)
     wrapped = session(body)          # R8 refusals surface here
     g = wrapped()
     live.append(g)
@@ -335,6 +379,18 @@ def _drive_generator(e, case, opts, obs, interp, start_attempt, make, live):
                 g.close()
                 obs.closed_ok = True
                 return
+            elif action[0] == 'abandon':
+                # the consumer just drops the generator (break out of a for loop): finalisation closes it and
+                # whatever that raises is reported to sys.unraisablehook, not to the caller
+                live.remove(g)
+                hook = sys.unraisablehook
+                sys.unraisablehook = lambda info: obs.unraisable.append(info.exc_value)
+                try:
+                    del g
+                    gc.collect()
+                finally:
+                    sys.unraisablehook = hook
+                return
             else:
                 raise HarnessError('unknown action %r' % (action,))
     except StopIteration:
@@ -355,7 +411,8 @@ def judge(case, exp, obs):
     if obs.exc is not None:
         detail = ' (%s: %s)' % (type(obs.exc).__name__, str(obs.exc)[:200])
     if exp['reject']:
-        if got_cls != exp['reject'] or obs.executions != 0 or obs.final != exp['finals'][0]:
+        if got_cls != exp['reject'] or obs.executions != 0 or obs.after_session != exp['finals'][0] \
+                or obs.final != exp['finals_after'][0]:
             return ('session must be refused with %s before the body runs; got exception %s%s, %d body executions, '
                     'final rows %r' % (exp['reject'], got_cls, detail, obs.executions, obs.final))
         return None
@@ -363,6 +420,9 @@ def judge(case, exp, obs):
         return ('body executed %d times, expected %d (retried %d); exception %s%s; final rows %r expected %r'
                 % (obs.executions, exp['executions'], exp['retried'], got_cls, detail, obs.final, exp['finals']))
     want = exp['exc']
+    for alt in exp.get('exc_alternatives') or ():
+        if alt['cls'] == got_cls:
+            want = alt
     if (want['cls'] if want else None) != got_cls:
         return ('exception leaving the session: got %s%s, expected %s [outcome %s]; final rows %r expected %r'
                 % (got_cls, detail, want['cls'] if want else None, exp['outcome'], obs.final, exp['finals']))
@@ -383,17 +443,20 @@ def judge(case, exp, obs):
     if len(exp['probes']) != len(obs.probes):
         return ('control flow diverged: %d probes observed, %d expected (%r vs %r)'
                 % (len(obs.probes), len(exp['probes']), [p[0] for p in obs.probes], [p[0] for p in exp['probes']]))
-    if obs.after_session in exp['finals'] and obs.final != obs.after_session:
-        return ('changes the session must not commit became durable when the next (empty) db_session ended: rows %r '
-                'right after the session, %r after the following empty session [outcome %s]'
-                % (obs.after_session, obs.final, exp['outcome']))
-    if obs.final not in exp['finals']:
+    if obs.after_session not in exp['finals']:
         return ('final committed rows %r, expected %s [outcome %s, exception %s, %d executions]'
-                % (obs.final, ' or '.join(repr(f) for f in exp['finals']), exp['outcome'], got_cls, obs.executions))
+                % (obs.after_session, ' or '.join(repr(f) for f in exp['finals']), exp['outcome'], got_cls,
+                   obs.executions))
+    want_final = exp['finals_after'][exp['finals'].index(obs.after_session)]
+    if obs.final != want_final:
+        return ('the next db_session did not commit exactly its own writes (leftovers of the session under test became '
+                'durable, or its own work was lost): rows %r right after the session, %r after the following session '
+                '(writes %r), expected %r [outcome %s]'
+                % (obs.after_session, obs.final, case.get('after') or [], want_final, exp['outcome']))
     if obs.followup_exc is not None:
         return ('the session did not end cleanly: a following empty db_session raised %s: %s [outcome %s]'
                 % (type(obs.followup_exc).__name__, str(obs.followup_exc)[:200], exp['outcome']))
-    if exp['outcome'] == 'closed' and not obs.closed_ok:
+    if exp['outcome'] in ('closed', 'closed_after_catch') and exp.get('closing') == 'close' and not obs.closed_ok:
         return 'close() of the suspended generator session did not return normally'
     return None
 
